@@ -169,6 +169,29 @@ theorem update_refines_set_labels_rows (A : Algebra) (params : List (String × V
       USim g next m sp :=
   Nervus.Cy.update_refines_set_labels_rows A params g hg next names w x ls hls T hT hdist
 
+/-- **update_refines (REMOVE x.k, every table in which no node is targeted by two rows)**: the model counts a removal
+    when the SNAPSHOT has the property, the reference when the CURRENT graph has it -/
+theorem update_refines_remove_prop_rows (A : Algebra) (params : List (String × Val)) (g : Graph)
+    (hg : g.NodesDistinct) (next : Nat) (names : List String) (w : Update.WPlan) (x k : String) (T : Table)
+    (hT : ∀ r ∈ T, ∃ n, r.get x = some (.node n))
+    (hdist : (targetsOf x (T.map fun r => { row := r })).Nodup) :
+    ∃ m T' sp, Update.runStage A params g next names w {} (T.map fun r => { row := r }) (.removeProperty [(x, k)]) =
+        .ok (m, T') ∧
+      Spec.applyClause A params { g, next } T (.remove [.prop x k]) = .ok (sp, T) ∧
+      USim g next m sp :=
+  Nervus.Cy.update_refines_remove_prop_rows A params g hg next names w x k T hT hdist
+
+/-- **update_refines (SET x.k = e where e is null on every row — a removal; distinct targets)** -/
+theorem update_refines_set_null_rows (A : Algebra) (params : List (String × Val)) (g : Graph)
+    (hg : g.NodesDistinct) (next : Nat) (names : List String) (w : Update.WPlan) (x k : String) (e : Expr) (T : Table)
+    (hT : ∀ r ∈ T, (∃ n, r.get x = some (.node n)) ∧ eval A { g, params } r e = .null)
+    (hdist : (targetsOf x (T.map fun r => { row := r })).Nodup) :
+    ∃ m T' sp, Update.runStage A params g next names w {} (T.map fun r => { row := r }) (.setProperty [(x, k, e)]) =
+        .ok (m, T') ∧
+      Spec.applyClause A params { g, next } T (.set [.prop x k e]) = .ok (sp, T) ∧
+      USim g next m sp :=
+  Nervus.Cy.update_refines_set_null_rows A params g hg next names w x k e T hT hdist
+
 /-- **update_refines (CREATE (x:L…), every table)**: one `create_node` per row with the consecutive ids `next`,
     `next + 1`, …; `next` is above every node id of the snapshot, the rows do not bind `x` -/
 theorem update_refines_create_node_rows (A : Algebra) (params : List (String × Val)) (g : Graph)
